@@ -32,6 +32,12 @@ pub trait Monitor {
     fn claims(&self, _d: &crate::engine::Divergence) -> bool {
         false
     }
+    /// Called for a divergence the monitor neither owns nor claims, before the history
+    /// is abandoned: the monitor may still find *its own* property violated by what the
+    /// call did (C10: a call that was refused - predicted or not - changed the bytes).
+    fn on_divergence(&mut self, _sess: &mut Session, _step: &Step, _d: &crate::engine::Divergence, _rep: &mut Report) -> Option<Fail> {
+        None
+    }
 }
 
 pub fn steps_json(steps: &[Step]) -> J {
@@ -149,6 +155,9 @@ pub fn drive(ctx: &Ctx, case: u64, rng: &mut Rng, rep: &mut Report, mut opts: Dr
                     if mon.owns_divergence() || mon.claims(&d) {
                         return Err((d.signature.clone(), format!("step #{} {}: expected {}, observed {}", d.step_index, d.step, d.expected, d.observed)));
                     }
+                    if let Some(f) = mon.on_divergence(&mut sess, &step, &d, rep) {
+                        return Err(f);
+                    }
                     rep.count("abandoned_model_divergence");
                     rep.set_insert("abandoned_signatures", d.signature.clone());
                     info.abandoned = true;
@@ -231,12 +240,41 @@ impl Monitor for DumpMonitor {
 /// A session on a synthesised foreign image (self-checked by the independent parser;
 /// a failing self-check means "no foreign start", never a verdict).
 pub fn foreign_start(rng: &mut Rng) -> Option<(Session, Version)> {
-    let layout = crate::synth::Layout::random(rng);
+    foreign_start_with(rng, false)
+}
+
+/// With `dirty_free_slots`, the unallocated directory entries of the image keep stale
+/// CLSID / state / time fields of "deleted objects" (only the type byte says unallocated;
+/// both open modes accept that).
+pub fn foreign_start_with(rng: &mut Rng, dirty_free_slots: bool) -> Option<(Session, Version)> {
+    let mut layout = crate::synth::Layout::random(rng);
+    if dirty_free_slots {
+        layout.dir_gap_pct = *rng.pick(&[20, 60, 150]);
+    }
     let n = *rng.pick(&[3usize, 10, 30]);
     let model = crate::synth::random_model(rng, n, 9000);
-    let (bytes, _f) = crate::synth::synthesize(&model, &layout, rng);
+    let (mut bytes, _f) = crate::synth::synthesize(&model, &layout, rng);
     if crate::props::foreign::self_check(&model, &bytes).is_err() {
         return None;
+    }
+    if dirty_free_slots {
+        let img = refparse::parse(&bytes).ok()?;
+        let per = img.sector_len / 128;
+        let mut n = 0;
+        for &sec in &img.dir_chain {
+            for k in 0..per {
+                let base = img.sector_off(sec) + 128 * k;
+                if bytes[base + 66] == 0 {
+                    for b in bytes[base + 80..base + 116].iter_mut() {
+                        *b = (rng.next_u32() as u8) | 1;
+                    }
+                    n += 1;
+                }
+            }
+        }
+        if n == 0 {
+            return None;
+        }
     }
     let mode = if rng.chance(1, 2) { Mode::Strict } else { Mode::Permissive };
     let sess = Session::open_bytes(bytes, mode, None, model).ok()?;
@@ -245,6 +283,9 @@ pub fn foreign_start(rng: &mut Rng) -> Option<(Session, Version)> {
 }
 
 pub fn run_c01(ctx: &Ctx, rep: &mut Report) {
+    if crate::props::wide::maybe_run(ctx, rep, crate::props::wide::Role::Model, 0, 8) {
+        return;
+    }
     let mut i = 0;
     while let Some(case) = ctx.next_case(&mut i) {
         let mut rng = ctx.case_rng(case);
@@ -355,7 +396,7 @@ impl Monitor for ReopenMonitor {
                     match (a, b) {
                         (None, None) => {}
                         (Some(_), _) => {
-                            rep.count("abandoned_model_divergence");
+                    rep.count("abandoned_model_divergence");
                             break 'outer;
                         }
                         (None, Some(d)) => {
@@ -440,6 +481,28 @@ fn c02_large_scenario(ctx: &Ctx, case: u64, rep: &mut Report) {
                 rep.max("max_dir_sectors_v4", n_dir as u64);
                 rep.count(&format!("large_scenario.variant{variant}.crash_points"));
             }
+        }
+        if variant == 2 && ctx.quick() {
+            // the second DIFAT sector (237th FAT sector, about 15.5 MB) reached cheaply by set_len
+            for st in [Step::HOpen { slot: 0, path: "/tail".into(), how: OpenHow::Create }, Step::HSetLen { slot: 0, n: 8_400_000 }, Step::HClose { slot: 0 }] {
+                done.push(st.clone());
+                if sess.run(&st).is_some() {
+                    rep.count("abandoned_model_divergence");
+                    return Ok(());
+                }
+            }
+            let bytes = sess.shared.bytes();
+            let n_fat = u32::from_le_bytes([bytes[44], bytes[45], bytes[46], bytes[47]]);
+            let n_difat = u32::from_le_bytes([bytes[72], bytes[73], bytes[74], bytes[75]]);
+            let exp = sess.model.dump();
+            for mode in [Mode::Permissive, Mode::Strict] {
+                let obs = engine::dump_bytes(&bytes, mode).map_err(|w| (format!("crash-point | reopen {:?} | open failed", mode), format!("large scenario: after growing to {} bytes ({n_fat} FAT sectors, header says {n_difat} DIFAT sectors): {w}", bytes.len())))?;
+                engine::dumps_match(&exp, &obs).map_err(|w| (format!("crash-point | reopen {:?} | state differs", mode), format!("large scenario: after growing to {} bytes: {w}", bytes.len())))?;
+            }
+            rep.count("crash_points");
+            rep.count("large_scenario.crash_points_past_second_difat_sector");
+            rep.max("max_fat_sectors", n_fat as u64);
+            rep.max("max_difat_sectors", n_difat as u64);
         }
         Ok(())
     });
@@ -570,6 +633,9 @@ impl Monitor for RulesMonitor {
 }
 
 pub fn run_c03(ctx: &Ctx, rep: &mut Report) {
+    if crate::props::wide::maybe_run(ctx, rep, crate::props::wide::Role::Rules, 8, 8) {
+        return;
+    }
     let mut i = 0;
     while let Some(case) = ctx.next_case(&mut i) {
         let mut rng = ctx.case_rng(case);
@@ -643,6 +709,16 @@ fn large_scenario(ctx: &Ctx, case: u64, rng: &mut Rng, rep: &mut Report) {
             }
         }
         check_image(&sess.shared.bytes(), rep).map_err(|(s, d)| (s, format!("large scenario {which}, full: {d}")))?;
+        if which == 3 && ctx.quick() {
+            // the second DIFAT sector (237th FAT sector, about 15.5 MB) reached cheaply by set_len
+            run(&mut sess, Step::HOpen { slot: 0, path: "/big/tail".into(), how: OpenHow::Create }, &mut done)?;
+            run(&mut sess, Step::HSetLen { slot: 0, n: 8_400_000 }, &mut done)?;
+            run(&mut sess, Step::HClose { slot: 0 }, &mut done)?;
+            let img = check_image(&sess.shared.bytes(), rep).map_err(|(s, d)| (s, format!("large scenario {which}, after growing past the second DIFAT sector: {d}")))?;
+            if img.difat_sectors.len() >= 2 {
+                rep.count("images_with_two_difat_sectors");
+            }
+        }
         // shrink, remove, re-create
         for k in (0..n_streams).step_by(3) {
             let p = format!("/big/s{k}");
